@@ -93,10 +93,10 @@ def history_sweep(tier="quick", seed=0):
             distinct.add((key[1], key[2], t))
             # the targets of one job are compiled one after the other in the same interpreter: earlier targets are history too
             before = list(key[1]) + list(r["targets"])[: list(r["targets"]).index(t)]
-            if "r_prefix" in key[1]:
-                vkey = "after-rejected-design-inside-std.prefix"
-            elif t == "v_base_port" and "v_derived_inst" in before:
+            if t == "v_base_port" and "v_derived_inst" in before:
                 vkey = "after-a-derived-entity-connected-an-inherited-port-to-an-instance"
+            elif "r_prefix" in key[1] and t == "v_prefix":
+                vkey = "after-rejected-design-inside-std.prefix"  # repaired by b787d24 (no longer a known finding: reported if it returns)
             else:
                 vkey = f"{t}|{','.join(key[1])}|seed{key[2]}"
             if hsh != ref[t] and vkey not in seen_keys and len(violations) < 6:
